@@ -95,6 +95,10 @@ var diffConfigs = []diffConfig{
 // end rejects.
 var diffOff = map[string]bool{
 	"builtin.select": true, "builtin.round": true, "builtin.determinant": true, "builtin.transpose": true,
+	"const-fold.mat-binary": true, // M13: a folded matrix + matrix is declared and constructed as a vector type
+	"const.index.composite": true, // front end: member of a constant struct holding a vector evaluates to the wrong component
+	"private-init.unary": true, // M14: a negated literal inside a private variable's struct initializer is emitted as {}
+	"ptr.deref.compound": true, // M12: integer %= through a pointer is written metal::fmod
 	"transpose.nonsquare": true, "determinant.negate": true, "module-const.expr": true, "module-const.struct": true,
 }
 
@@ -106,6 +110,10 @@ var diffKnown = []struct{ pat, label string }{
 	{"is read-only (parameter)", "M8 storage buffer declared const but passed to a non-const reference"},
 	{"cannot take the address of an rvalue", "M10 rzsw check inside the operand of &"},
 	{"vector sizes differ", "M9 swizzle of a binary expression without parentheses"},
+	{"cannot index a value of type float", "M11 component of a constant splat written 0.0[0]"},
+	{"metal::fmod(int, int) is ambiguous", "M12 integer %= through a pointer written metal::fmod"},
+	{"the arguments supply", "M13 constant-folded matrix expression constructed as a vector"},
+	{"metal::fmod(uint, uint) is ambiguous", "M12 integer %= through a pointer written metal::fmod"},
 }
 
 func numberLines(src string) string {
